@@ -598,6 +598,39 @@ def mutate_ace(draw, rec: dict, platform: str, version="0", kmax=4, groups=False
     return out
 
 
+@st.composite
+def flag_focus(draw, top: dict, bottom: dict, established: bool = True):
+    """Turn a derived pair into a TCP pair whose flag conditions are related (subset / superset / the
+    'established' keyword against its two flags) - flag comparisons are otherwise rarely exercised."""
+    pool = TCP_FLAGS + (["established"] if established else [])
+    top, bottom = dict(top), dict(bottom)
+    for rec in (top, bottom):
+        if rec["proto"] != 6:
+            if rec["proto"] != 17:
+                rec["sp"] = rec["dp"] = None
+            rec["proto"], rec["pn"] = 6, 0
+    tf = draw(st.lists(st.sampled_from(pool), min_size=1, max_size=3, unique=True))
+    how = draw(st.sampled_from(["same", "subset", "superset", "est-only", "plus-est", "est-for-ackrst", "other"]))
+    if how == "same":
+        bf = list(tf)
+    elif how == "subset":
+        bf = tf[: draw(st.integers(1, len(tf)))]
+    elif how == "superset":
+        extra = draw(st.sampled_from(pool))
+        bf = tf + ([extra] if extra not in tf else [])
+    elif how == "est-only" and established:
+        bf = ["established"]
+    elif how == "plus-est" and established:
+        bf = tf + (["established"] if "established" not in tf else [])
+    elif how == "est-for-ackrst" and established:
+        bf = [f for f in tf if f not in ("ack", "rst", "established")] + ["established"]
+    else:
+        bf = draw(st.lists(st.sampled_from(pool), min_size=0, max_size=2, unique=True))
+    top["flags"], bottom["flags"] = tf, bf
+    bottom["action"] = top["action"]
+    return top, bottom
+
+
 def label_addr(a: dict) -> str:
     if a["k"] == "wild":
         return "wild-nc" if not R.is_contiguous(a["w"]) else "wild-contig"
